@@ -11,7 +11,7 @@ COQ_RUN = "run16"
 COQ_CASE_TYPE = "case16"
 SHARD = 60
 RULE = ("the client runs against an interactive fake board (python) whose every reply is re-derived from Spec/Board.v inside Coq; "
-        "int32 values {0, +-1, +-2^31 edge, byte boundaries, random} x slots 0..28 written then read back; nicknames with surrounding blanks; "
+        "int32 values {0, +-1, +-2^31 edge, byte boundaries, random} x slots 0..28 written then read back; nicknames with surrounding blanks and with leading Q / T / comma characters (systematic list + random); "
         "all 36 clamped (r1, r2) requests (and out-of-range arguments) from all 20 prior board motor states, systematically, and random sequences of 3..12 such operations; "
         "non-trivial = a motors_enable request from an enabled prior state, or an int32 with a non-zero high byte")
 TRUSTED = ["the EBB board model Spec/Board.v (SL/QL/ST/QT/EM/QE/CU as documented in the repository's docstrings): assumed, no firmware source offline",
@@ -68,8 +68,15 @@ class BoardPort:
     def reset_input_buffer(self): pass
 
 def _board(rng):
-    return {"slots": [rng.randint(0, 255) for _ in range(32)], "nick": rng.choice(["", "Bot", "Axi Draw"]),
+    return {"slots": [rng.randint(0, 255) for _ in range(32)], "nick": rng.choice(["", "Bot", "Axi Draw", "Tom", "QT", ",odd", "Quill"]),
             "en1": rng.random() < 0.5, "en2": rng.random() < 0.5, "mode": rng.randint(1, 5)}
+
+# nicknames: ordinary ones, padded ones, and ones whose first characters are the letters of the QT query name or the separator
+# (a reply is the name, one comma, then the payload verbatim: 'QT,Tom', 'QT,,odd', 'QT,QT')
+NICKS = ["Bot", " Axi ", "Plotter 7", "x" * 16, "a b", "Tom", "Quill", "QT", "TQ", "TTT", "Q", "T", ",odd", ",,x", "T,Q", "QT,QT", "qt", " Tim\t", "Q Q"]
+def _nick(rng):
+    if rng.random() < 0.6: return rng.choice(NICKS)
+    return rng.choice("QT,QT,abzAZ09_-. ") + "".join(rng.choice("QT,abcXYZ 019_") for _ in range(rng.randint(0, 8)))
 
 INTS = [0, 1, -1, 2**31 - 1, -2**31, 255, 256, -256, 65535, 65536, -65536, 2**24, -2**24 - 1, 0x12345678, -0x12345678]
 
@@ -84,6 +91,8 @@ def generate(rng, tier):
             if (si + ri) % step: continue
             bd = _board(rng); bd.update(en1=e1, en2=e2, mode=m)
             cases.append({"board": bd, "calls": [("motors_on", a, b), ("motors_query",)], "family": "motors/systematic"})
+    for nk in NICKS:
+        cases.append({"board": _board(rng), "calls": [("write_nick", nk), ("query_nick",), ("query", "QT"), ("query_nick",)], "family": "nickname/systematic"})
     n = 150 if tier == "quick" else 3000
     for _ in range(n):
         calls = []
@@ -94,7 +103,7 @@ def generate(rng, tier):
                 calls += [("var_write32", v, i), ("var_read32", i)]
             elif k < 0.4: calls.append(("var_read32", rng.randint(0, 28)))
             elif k < 0.5: i = rng.randint(0, 31); calls += [("var_write", rng.randint(0, 255), i), ("var_read", i)]
-            elif k < 0.65: calls += [("write_nick", rng.choice(["Bot", " Axi ", "Plotter 7", "x" * 16, "a b"])), ("query_nick",)]
+            elif k < 0.65: calls += [("write_nick", _nick(rng)), ("query_nick",)]
             elif k < 0.9: calls += [("motors_on", rng.randint(-1, 6), rng.randint(-1, 6)), ("motors_query",)]
             else: calls.append(("motors_off",))
         cases.append({"board": _board(rng), "calls": calls, "family": "sequence"})
